@@ -1,4 +1,5 @@
 import Exetera.Lemmas.DatesDays
+import Exetera.Lemmas.DatesPeriods
 /-!
 # C20 — date helpers bucket timestamps into the day and the period that contain them
 
@@ -71,5 +72,60 @@ theorem get_days_ok_lengths {ts : List Int} {filt : Option (List Int)} {start en
 
 example : getDays [5, 7, 9] (some [1, 0]) (some 0) none = .error (.valueError "operands could not be broadcast together") := by
   rfl
+
+/-! ## get_periods
+
+`start`, `end_` are seconds since `datetime.min`; `0 … DT_MAX` is the representable range. `u` is the unit in days (1 or 7), the
+step is `delta·u·86400` seconds. A valid call: known unit, `delta ≠ 0`, `start ≤ end` for a positive and `end ≤ start` for a
+negative `delta`, and a step that `timedelta` can represent (`|delta·u| ≤ 999999999` days). -/
+
+/-- functional correctness and termination of the stepping loop: on every valid call `get_periods` returns — no
+    `OverflowError` even when the range touches `datetime.min`/`datetime.max` — exactly the list
+    `start, start+step, …, start+n·step` with `n = ⌊|end−start| / |step|⌋`. -/
+theorem get_periods_eq {start end_ : Int} {period : String} {delta u : Int} (hu : unitDays period = some u)
+    (hdelta : delta ≠ 0) (hdir : (0 < delta → start ≤ end_) ∧ (delta < 0 → end_ ≤ start))
+    (htd : (delta * u).natAbs ≤ TD_MAX_DAYS)
+    (hs : 0 ≤ start ∧ start ≤ DT_MAX) (he : 0 ≤ end_ ∧ end_ ≤ DT_MAX) :
+    getPeriods start end_ period delta =
+      .ok (boundaries start (delta * u * 86400) ((end_ - start).natAbs / (delta * u * 86400).natAbs)) :=
+  getPeriods_eq hu hdelta hdir htd hs he
+
+example : getPeriods 315535305600 315537897599 "week" 1 =
+    .ok [315535305600, 315535910400, 315536515200, 315537120000, 315537724800] := by rfl
+example : getPeriods 1814400 100 "weeks" (-1) = .ok [1814400, 1209600, 604800] := by rfl
+
+/-- `periods_equally_spaced`: the result has `n+1 = ⌊|end−start|/|step|⌋+1` entries, entry `k` is `start + k·step` (so the
+    first is `start` and consecutive entries differ by `step`, which has the sign of `delta`), every entry lies in the closed
+    range between `start` and `end`, and the list is maximal: one more step would leave that range. -/
+theorem periods_equally_spaced {start end_ : Int} {period : String} {delta u : Int} (hu : unitDays period = some u)
+    (hdelta : delta ≠ 0) (hdir : (0 < delta → start ≤ end_) ∧ (delta < 0 → end_ ≤ start))
+    (htd : (delta * u).natAbs ≤ TD_MAX_DAYS)
+    (hs : 0 ≤ start ∧ start ≤ DT_MAX) (he : 0 ≤ end_ ∧ end_ ≤ DT_MAX) :
+    ∃ ps n, getPeriods start end_ period delta = .ok ps ∧
+      n = (end_ - start).natAbs / (delta * u * 86400).natAbs ∧ ps.length = n + 1 ∧
+      (∀ k : Nat, k ≤ n → ps[k]? = some (start + (k : Int) * (delta * u * 86400))) ∧
+      (∀ p ∈ ps, min start end_ ≤ p ∧ p ≤ max start end_) ∧
+      ¬(min start end_ ≤ start + ((n + 1 : Nat) : Int) * (delta * u * 86400) ∧
+        start + ((n + 1 : Nat) : Int) * (delta * u * 86400) ≤ max start end_) := by
+  have hstep : delta * u * 86400 ≠ 0 ∧ (0 < delta * u * 86400 → 0 < delta) ∧ (delta * u * 86400 < 0 → delta < 0) := by
+    rcases unitDays_cases hu with rfl | rfl <;> omega
+  have hd := dir_of start end_ (delta * u * 86400) hstep.1
+    ⟨fun h => hdir.1 (hstep.2.1 h), fun h => hdir.2 (hstep.2.2 h)⟩
+  have hS : 0 < (delta * u * 86400).natAbs := by have := hstep.1; omega
+  refine ⟨_, _, getPeriods_eq hu hdelta hdir htd hs he, rfl, boundaries_length _ _ _,
+    fun k hk => boundaries_get _ _ _ k hk, ?_, boundary_maximal hd hS⟩
+  intro p hp
+  obtain ⟨k, hk, rfl⟩ := mem_boundaries hp
+  exact boundary_within hd hS k hk
+
+example : unitDays "week" = some 7 ∧ ((1 : Int) * 7).natAbs ≤ TD_MAX_DAYS ∧ (315535305600 : Int) ≤ DT_MAX := by decide
+
+/-- the argument checks: an unknown unit, `delta = 0` or a range pointing against the sign of `delta` is a `ValueError`. -/
+theorem get_periods_invalid {start end_ : Int} {period : String} {delta : Int}
+    (h : unitDays period = none ∨ delta = 0 ∨ (delta < 0 ∧ start < end_) ∨ (0 < delta ∧ end_ < start)) :
+    ∃ msg, getPeriods start end_ period delta = .error (.valueError msg) :=
+  getPeriods_invalid h
+
+example : unitDays "month" = none := by decide
 
 end Exetera.Props.C20
